@@ -383,8 +383,15 @@ class World(WsWorld):
             return [encode_frame(1, b"ok" + ch.pick(BAD_UTF8, "bu") + b"tail", mask=m)]
         if kind == "bad-utf8-split":
             seq = "€".encode("utf8")
-            return [encode_frame(1, b"a" + seq[:1], fin=False, mask=m),
-                    encode_frame(0, b"\x41" + seq[2:], fin=True, mask=self.mask())]
+            out = [encode_frame(1, b"a" + seq[:1], fin=False, mask=m)]
+            if ch.flag("control-frame-before-the-invalid-continuation", 0.4):
+                # a ping or pong between the fragments (legal) changes nothing about the text message being validated
+                out.append(encode_frame(ch.pick((9, 10), "ctl-op"), b"mid", mask=self.mask()))
+                self.run.probe("control-inside-fragmented-message")
+                self.run.probe("control-frame-before-invalid-continuation")
+            bad_tail = ch.pick((b"\x41" + seq[2:], b"Hello\xff!", seq[1:2]), "bad-tail")
+            out.append(encode_frame(0, bad_tail, fin=True, mask=self.mask()))
+            return out
         if kind == "utf8-truncated":
             seq = ch.pick(("€", "\U0001f600", "é"), "tseq").encode("utf8")
             form = ch.pick(("whole", "empty-final-fragment", "empty-fragments"), "tform", (2, 2, 1))
